@@ -15,6 +15,11 @@ What is enumerated (every element of the product, no sampling):
   the generic sequence with +-inf at each single node)
   x target (every node, mid point, quarter point, 31/64 and 33/64 of every bin, one ulp either
   side of every node, one ulp inside / outside both ends, far outside), as one array and one by one as scalars.
+* non-uniform grids whose first step equals the mean step (they pass a first-step/end-point test for
+  equidistance): 4 [thorough: 7] node sets x {ascending, negated (descending), reversed}, and the datetime grid
+  00:00:00/08/12/24.
+* datetime64 axes of every unit: grid unit {s, ms, us, ns} x target unit {s, ms, us, ns} x coordinate {"time",
+  another name} x {ascending, descending}; spectra whose time coordinate is stored as datetime64[s|ms|us].
 * the same on datetime64 axes (coordinate "time" with the library's time conversion of the
   targets - datetime64 arrays, datetime lists, scalars - and a datetime64 coordinate with
   another name with one-nanosecond-inside/outside targets).
@@ -47,7 +52,8 @@ RULE = (
     "(all subsets for n<=5 [thorough n<=8]; above: none, every single node, every pair at most two nodes apart) x mode {linear, nearest} x data pattern "
     "{every unit impulse, ramp, generic, pass-through; +-inf at each single node (no missing nodes)} x target {every node, mid, quarter, 31/64 and 33/64 of every bin, +-1ulp at "
     "every node, 1ulp inside/outside both ends, far outside}, array and scalar targets, float and datetime64 axes; "
-    "two-coordinate grid interpolation in both orders; 1D/2D spectra x 3 layouts x {time, frequency, time+frequency} "
+    "non-uniform grids with first step == mean step (float asc/desc/reversed, datetime); datetime64 grid unit x target "
+    "unit in {s,ms,us,ns}^2 x coordinate {'time', other}; two-coordinate grid interpolation in both orders; 1D/2D spectra x 3 layouts x {time, frequency, time+frequency} "
     "x extrapolation value {default, 0, -1}. One evaluation = one (call, variable, target) triple compared with the "
     "rational reference. A case is non-trivial when the target lies strictly inside a bin (both weights positive) "
     "or a neighbour of the target is missing; distinct = distinct (api, grid, layout, missing subset, mode, target)."
@@ -74,6 +80,7 @@ REQUIRED_CATEGORIES = [
     "half_way_exact_missing", "nearest_tie", "descending", "datetime_axis", "scalar_target", "passthrough",
     "ramp_exact", "bounded_checked", "grid2_cells", "spectrum_moment", "spectrum_extrapolated", "rank4",
     "inf_node_cases", "inf_at_node_target", "spectrum_inf_depth",
+    "first_step_equals_mean_step", "datetime_unit_pairs", "datetime_grid_coarser_than_ns", "spectrum_time_unit",
 ]
 
 HALF = Fr(1, 2)
@@ -149,9 +156,14 @@ def alternatives(br, missing, mode, exact_half):
 class Grid:
     """One interpolation axis of the alphabet."""
 
-    def __init__(self, name, nodes, exact_half=None, exact_ends=None, kind="float"):
+    def __init__(self, name, nodes, exact_half=None, exact_ends=None, kind="float", coord=None, gunit="ns",
+                 tunit="ns"):
         self.name = name
-        self.kind = kind  # float | time_s (coordinate 'time', whole seconds) | time_ns
+        # float | time_s (coordinate 'time', whole seconds, stored as ns) | time_ns (1 ns resolution) |
+        # time_u (whole-second offsets; grid stored as datetime64[gunit], targets given as datetime64[tunit])
+        self.kind = kind
+        self.coord = coord or {"float": "x", "time_s": "time", "time_ns": "valid_time"}.get(kind)
+        self.gunit, self.tunit = gunit, tunit
         self.nodes = list(nodes)  # floats, or integer offsets for time axes
         self.q = [exact(v) for v in self.nodes]
         self.asc = self.nodes[-1] > self.nodes[0]
@@ -164,6 +176,8 @@ class Grid:
     def coordinate(self):
         if self.kind == "float":
             return np.array(self.nodes, dtype=float)
+        if self.kind == "time_u":
+            return (T0_64.astype("datetime64[s]") + np.array(self.nodes, dtype="int64")).astype(f"datetime64[{self.gunit}]")
         unit = "s" if self.kind == "time_s" else "ns"
         return T0_64 + np.array(self.nodes, dtype="int64") * np.timedelta64(1, unit)
 
@@ -174,6 +188,8 @@ class Grid:
     def target_array(self, tv):
         if self.kind == "float":
             return np.array(tv, dtype=float)
+        if self.kind == "time_u":
+            return (T0_64.astype("datetime64[s]") + np.array(tv, dtype="int64")).astype(f"datetime64[{self.tunit}]")
         unit = "s" if self.kind == "time_s" else "ns"
         return T0_64 + np.array(tv, dtype="int64") * np.timedelta64(1, unit)
 
@@ -368,6 +384,48 @@ def time_grids():
     return gs
 
 
+# non-uniform grids whose FIRST step equals the mean step (last-first)/(n-1): they look equidistant to any test that
+# only inspects the first step and the end points.  All start at 0, so the negated grid is a descending grid whose
+# mirrored coordinate xp[0]-xp is the same node set (and exact).
+MEAN_STEP_GRIDS = {
+    "quick": [("m4a", [0.0, 1.0, 1.5, 3.0]), ("m4b", [0.0, 2.0, 5.0, 6.0]), ("m5a", [0.0, 2.0, 3.0, 7.0, 8.0]),
+              ("m5b", [0.0, 1.0, 3.0, 3.5, 4.0])],
+    "thorough": [("m6", [0.0, 2.0, 3.0, 7.0, 9.0, 10.0]), ("m7", [0.0, 0.5, 0.75, 1.0, 2.0, 2.75, 3.0]),
+                 ("m8", [0.0, 1.0, 1.5, 2.0, 4.0, 5.5, 6.0, 7.0])],
+}
+
+
+def mean_step_grids(tier):
+    gs = []
+    for name, nodes in MEAN_STEP_GRIDS["quick"] + (MEAN_STEP_GRIDS["thorough"] if tier == "thorough" else []):
+        assert (nodes[1] - nodes[0]) * (len(nodes) - 1) == nodes[-1] - nodes[0] and len(set(np.diff(nodes))) > 1
+        gs.append(Grid(name + "_asc", nodes))
+        gs.append(Grid(name + "_desc0", [-v for v in nodes], exact_half=True))
+        gs.append(Grid(name + "_rev", list(reversed(nodes)), exact_half=True))
+    return gs
+
+
+DT_UNITS = ["s", "ms", "us", "ns"]
+DT_NODES = [0, 8, 12, 24]  # seconds; non-uniform with first step == mean step
+
+
+def unit_time_grids():
+    """datetime64 axes of every unit for the grid and for the targets (all 16 pairs), for the coordinate named 'time'
+    (targets pass through the library's conversion) and for another datetime coordinate (targets used as given)"""
+    gs = []
+    for coord in ("time", "valid_time"):
+        for gu in DT_UNITS:
+            for tu in DT_UNITS:
+                for tag, nodes in (("asc", DT_NODES), ("desc", list(reversed(DT_NODES)))):
+                    gs.append(Grid(f"dt_{coord}_{gu}_{tu}_{tag}", nodes, exact_half=True, exact_ends=True, kind="time_u",
+                                   coord=coord, gunit=gu, tunit=tu))
+    return gs
+
+
+def all_grids(tier):
+    return float_grids(tier) + time_grids() + mean_step_grids(tier) + unit_time_grids()
+
+
 def subsets(n, tier):
     full = 5 if tier == "quick" else 8
     if n <= full:
@@ -528,10 +586,10 @@ def run_axis(unit):
     from ocean_science_utilities.interpolate.dataset import interpolate_dataset_along_axis
 
     tier = unit["tier"]
-    grids = {g.name: g for g in float_grids(tier) + time_grids()}
+    grids = {g.name: g for g in all_grids(tier)}
     grid = grids[unit["grid"]]
     r, p = unit["rank"], unit["pos"]
-    coord = {"float": "x", "time_s": "time", "time_ns": "valid_time"}[grid.kind]
+    coord = grid.coord
     c = Collector()
     tk = grid.targets()
     tvals = [t for _, t in tk]
@@ -542,12 +600,22 @@ def run_axis(unit):
         c.cat("descending")
     if grid.kind != "float":
         c.cat("datetime_axis")
+    if grid.kind == "time_u":
+        c.cat("datetime_unit_pairs")
+        if grid.gunit != "ns":
+            c.cat("datetime_grid_coarser_than_ns")
+    if grid.name[0] == "m" or grid.kind == "time_u":
+        c.cat("first_step_equals_mean_step")
     if r == 4:
         c.cat("rank4")
     x_num = np.array(tvals, dtype=float)
     cond = grid.conds(tvals)
     sampled = False
     for missing in subsets(grid.n, tier):
+        if len(missing) > 1 and (grid.kind == "time_u" or grid.name.endswith("_rev")):
+            # unit pairs / reversed mean-step grids: the empty set and every single missing node (the NaN rule itself is
+            # enumerated in full on the other grids)
+            continue
         impulses = len(missing) <= 1 and grid.n <= 12
         vars_, P = build_vars(grid, r, missing, impulses)
         ds, passv = make_dataset(grid, coord, r, p, vars_)
@@ -698,9 +766,9 @@ def run_scalar(unit):
     from ocean_science_utilities.interpolate.dataset import interpolate_dataset_along_axis
 
     tier = unit["tier"]
-    grids = {g.name: g for g in float_grids(tier) + time_grids()}
+    grids = {g.name: g for g in all_grids(tier)}
     grid = grids[unit["grid"]]
-    coord = {"float": "x", "time_s": "time", "time_ns": "valid_time"}[grid.kind]
+    coord = grid.coord
     c = Collector()
     if not grid.asc:
         c.cat("descending")
@@ -1240,6 +1308,34 @@ def run_spectrum(unit):
                     c.cat("spectrum_inf_depth", len(ttv))
                     check_spectral(key0, res, E, moms, [(gt, ttv, 0)], mode, 0.0)
                     check_time_vars(key0, res, s, ttv, mode, {"latitude": None, "depth": None})
+    # ---------------- time coordinate of the spectrum stored as datetime64[s|ms|us] (targets arrive as ns) ----------
+    if lead:
+        s0, E, moms, dep = build_spectrum(lead, two_d, "generic", "finite")
+        ttv_all = [t for _, t in tkk]
+        for gu in ("s", "ms", "us"):
+            s = type(s0)(s0.dataset.assign_coords(time=s0.dataset["time"].values.astype(f"datetime64[{gu}]")))
+            if s.dataset["time"].dtype != np.dtype(f"datetime64[{gu}]"):
+                c.cat("spectrum_time_unit_not_kept")
+                continue
+            for mode in MODES:
+                if two_d and mode == "nearest":
+                    continue
+                ttv = ttv_all if mode == "linear" else [t for t in ttv_all if not (gt.bracket(t) is not None
+                                                                                   and gt.bracket(t)[2] == HALF)]
+                for tu in ("ns", gu):
+                    kw = {} if two_d else {"nearest_neighbour": (mode == "nearest")}
+                    key0 = {"api": ("spec2d." if two_d else "spec1d.") + "interpolate", "layout": layout, "along": "time",
+                            "mode": mode, "time_unit": gu, "target_unit": tu}
+                    c.case(key0)
+                    try:
+                        res = s.interpolate({"time": gt.target_array(ttv).astype(f"datetime64[{tu}]")}, **kw)
+                    except Exception as exc:  # noqa
+                        c.violation(dict(key0, check="raises"), f"interpolate(time) raised {type(exc).__name__}: {exc}",
+                                    traceback=tb_tail())
+                        continue
+                    c.cat("spectrum_time_unit", len(ttv))
+                    check_spectral(key0, res, E, moms, [(gt, ttv, 0)], mode, 0.0)
+                    check_time_vars(key0, res, s, ttv, mode, {"latitude": None, "depth": None})
     c.nontriv(n=n_nontriv)
     c.sample({"api": "spectrum.interpolate / interpolate_frequency", "two_d": two_d, "layout": layout,
               "frequency_nodes": FREQ, "time_nodes_s": TIME_S, "frequency_targets": [t for _, t in fk][:8]})
@@ -1263,6 +1359,17 @@ def units(tier):
             us.append({"name": f"axis:{g.name}:r{r}p{p}", "kind": "axis", "grid": g.name, "rank": r, "pos": p,
                        "cost": 32 * 5 * (1 + r)})
         us.append({"name": f"scalar:{g.name}", "kind": "scalar", "grid": g.name, "cost": 400})
+    for g in mean_step_grids(tier):
+        nsub = sum(1 for _ in subsets(g.n, tier))
+        for r, p in ([(1, 0), (2, 1), (3, 1), (4, 2)] if tier == "quick" else LAYOUTS):
+            us.append({"name": f"axis:{g.name}:r{r}p{p}", "kind": "axis", "grid": g.name, "rank": r, "pos": p,
+                       "cost": nsub * g.n * (1 + r)})
+        if g.name.endswith("_asc") or tier == "thorough":
+            us.append({"name": f"scalar:{g.name}", "kind": "scalar", "grid": g.name, "cost": 40 * g.n})
+    for g in unit_time_grids():
+        for r, p in ([(1, 0), (3, 1)] if tier == "quick" else [(1, 0), (2, 1), (3, 1), (4, 2)]):
+            us.append({"name": f"axis:{g.name}:r{r}p{p}", "kind": "axis", "grid": g.name, "rank": r, "pos": p,
+                       "cost": 16 * 4 * (1 + r)})
     for ix in range(2):
         for iy in range(2):
             for mode in MODES:
